@@ -5,8 +5,9 @@ import json
 import os
 import re
 
+ROOT = os.path.dirname(os.path.dirname(os.path.abspath(__file__)))
 rows, first, later = [], 0, 0
-for p in sorted(glob.glob("/verif/seeded/*/meta.json")):
+for p in sorted(glob.glob(ROOT + "/seeded/*/meta.json")):
     m = json.load(open(p))
     sid = os.path.basename(os.path.dirname(p))
     checks = m.get("confirmed", {}).get("checks", {})
@@ -24,10 +25,10 @@ for p in sorted(glob.glob("/verif/seeded/*/meta.json")):
 head = ("%d changes; %d were caught by the first version of the checks, %d only after the checks were strengthened\n(none is missed now):\n\n"
         "| seeded change | needs (from its author) | caught by | first version? |\n|---|---|---|---|\n" % (len(rows), first, later))
 table = "<!-- seeded-table-begin -->\n" + head + "\n".join(rows) + "\n<!-- seeded-table-end -->"
-d = open("/verif/DESIGN.md").read()
+d = open(ROOT + "/DESIGN.md").read()
 if "<!-- seeded-table-begin -->" in d:
     d = re.sub(r"<!-- seeded-table-begin -->.*?<!-- seeded-table-end -->", lambda _: table, d, flags=re.S)
-    open("/verif/DESIGN.md", "w").write(d)
+    open(ROOT + "/DESIGN.md", "w").write(d)
     print("table regenerated:", len(rows), first, later)
 else:
     print(table)
